@@ -278,7 +278,8 @@ def run_simulator(param_input: Union[str, Dict], workload: Workload = None) -> S
     params = parse_args_with_defaults(params)
     
     # Validate constraints
-    assert (params["interactive_prob"] + params["query_prob"] + params["batch_prob"] == 1), \
+    # compare with a tolerance: e.g. 0.2 + 0.7 + 0.1 is 0.9999999999999999 in floating point
+    assert abs(params["interactive_prob"] + params["query_prob"] + params["batch_prob"] - 1) < 1e-9, \
         "Probabilities must sum to 1"
     assert params["cpu_io_ratio"] <= 1 and params["cpu_io_ratio"] >= 0, \
         "CPU IO ratio must be between 0 and 1"
